@@ -455,6 +455,10 @@ def plan_c13():
             core_token("C13.core.token.fill", "c12", T(tier, 2500, 80000), strat="fill"),
             core_free("C13.core.free.fill", "c12", T(tier, 6, 60), alloc="reuse", shards=4, extra=["strat=fill"], threads=4),
             life_job("C13.life.token", "token", execs=T(tier, 300, 15000)),
+            # "no call panics, aborts or hangs" for the rest of the API too: caches, projections (step budget / watchdog / panic hook are on in every workload)
+            core_token("C13.core.token.cache", "c16", T(tier, 1200, 40000)),
+            {"name": "C13.cache.native", "flavour": "native", "args": ["cache", "execs=%d" % T(tier, 200, 10000), "rounds=%d" % T(tier, 10, 200)], "shards": 2, "threads": 4, "timeout": 1200},
+            {"name": "C13.access.token", "flavour": "native", "args": ["access", "mode=token", "execs=%d" % T(tier, 1500, 100000)], "shards": 2, "threads": 4, "timeout": 2400},
         ]
         for k in ([1] if tier == "quick" else [0, 1, 2, 5, 9, 16]):
             js.append({"name": "C13.wrap.miri.k%d" % k, "flavour": "miri", "args": ["wrap", "mode=free", "alloc=real", "reps=1", "k=%d" % k], "miri_seeds": T(tier, 4, 24), "timeout": 1500})
